@@ -382,6 +382,35 @@ pub fn settle(sim: &mut Sim, mons: &mut Vec<Box<dyn Monitor>>, ctx: &Ctx, out: &
     }
     if !ok {
         out.count("settle_not_reached");
+        // Nothing unacknowledged at any sender, nothing in flight, nobody disconnected - and still a receiving
+        // application has not obtained everything: whatever the receiver holds for the missing message(s) (a partial
+        // reassembly, messages queued behind it) will never be completed and its bytes never come back.
+        let nobody_gone = (0..sim.cfg.n_clients).all(|c| !sim.any_disconnected(c));
+        if nobody_gone && all_acked(sim) && sim.in_flight() == 0 && !traffic::all_obtained(sim) {
+            let stuck: Vec<(usize, u8, u8, usize)> = (0..sim.cfg.n_clients)
+                .flat_map(|c| [UP, DOWN].into_iter().map(move |d| (c, d)))
+                .flat_map(|(c, d)| sim.cfg.chans(d).iter().map(move |s| (c, d, s.id)).collect::<Vec<_>>())
+                .filter_map(|(c, d, ch)| {
+                    let n = sim.outstanding_n[c][d as usize][ch as usize];
+                    if n > 0 {
+                        Some((c, d, ch, n))
+                    } else {
+                        None
+                    }
+                })
+                .collect();
+            let held: Vec<Option<usize>> = stuck.iter().map(|(c, d, ch, _)| sim.receiver(*c, *d).and_then(|r| r.verif_receive_memory(*ch))).collect();
+            let r = sim.replay_value(&ctx.prop, &ctx.engine, "receive-side bytes come back", json!({"stuck (conn, dir, ch, messages not obtained)": format!("{:?}", stuck), "receive memory held": format!("{:?}", held)}));
+            let mut r = r;
+            r["mode"] = json!("session");
+            out.violation(
+                ctx,
+                "C09/receive-memory-never-returns/sender-released-undelivered-message",
+                "send-side bytes come back when messages are acknowledged, receive-side bytes when messages are handed to the application; when all is received and acknowledged every channel offers its whole budget",
+                format!("600 clean ticks after the deadline no sender holds anything unacknowledged and nothing is in flight, yet {:?} (conn, dir, channel, messages) were never obtained; the receive side still accounts {:?} bytes for them", stuck, held),
+                r,
+            );
+        }
         return false;
     }
     // idle for more than 3 s of virtual time (use a coarse tick for speed)
@@ -624,6 +653,17 @@ fn trend(ctx: &Ctx, out: &mut Outcome, run_seed: u64, r: &mut Rng) {
         }
         if !settled {
             out.count("trend_runs_void_not_settled");
+            let acked = |c: &RenetClient| (1..3u8).all(|ch| c.verif_unacked(ch).map_or(true, |v| v.is_empty()));
+            let senders_done = acked(&l.client) && l.server.verif_connection(id).map_or(true, acked);
+            if senders_done && l.flight.is_empty() {
+                out.violation(
+                    ctx,
+                    "C09/receive-memory-never-returns/sender-released-undelivered-message",
+                    "send-side bytes come back when messages are acknowledged, receive-side bytes when messages are handed to the application",
+                    format!("heap-trend pair: after 2000 clean ticks no sender holds anything unacknowledged and nothing is in flight, yet bytes submitted and never obtained remain: {:?}", l.outstanding),
+                    json!({"property": "C09", "engine": ctx.engine, "run_seed": format!("{:#x}", run_seed), "mode": "trend"}),
+                );
+            }
             out.eval(fp.finish(), false);
             return;
         }
